@@ -60,6 +60,8 @@ def calleeOf (beh : String) (val : Val) : Callee := fun _ =>
   match beh with
   | "err" => .ret val (some "callee error")
   | "perr" => .panicErr "callee panic"
+  | "pwrap" => .panicErr "storage layer: inner failure"
+  | "plisp" => .panicErr "lisp-level failure"
   | "pval" => .panicVal val
   | "prt" => .panicErr "runtime error"
   | _ => .ret val none
